@@ -348,11 +348,12 @@ class AutonomousModeSelector:
 
         .. versionadded:: 2020.1.5
         """
-        if self.active_mode is not None:
-            logger.info("Disabling '%s'", self.active_mode.MODE_NAME)
-            self.active_mode.on_disable()
-
+        active_mode = self.active_mode
         self.active_mode = None
+
+        if active_mode is not None:
+            logger.info("Disabling '%s'", active_mode.MODE_NAME)
+            active_mode.on_disable()
 
     #
     #   Internal methods used to implement autonomous mode switching, and
